@@ -16,7 +16,7 @@ from . import common
 
 ID = 'C02'
 LEVEL = 'exploration'
-RUNS = {'quick': 10000, 'thorough': 240000}
+RUNS = {'quick': 40000, 'thorough': 300000}
 SIM_TIME_UNIT = 'samples'
 RULE = ('seeded generation of (past-time specification with repeated sub-formulas, trace of 1..14 samples, jittered clock, '
         'per-step input permutation, optional co-hosted monitor interleaved); every prefix is a checked history; non-trivial = '
@@ -43,6 +43,12 @@ def gen(rng, tier):
         cfg.max_bound = rng.choice([64, 70, 100, 130])
         cfg.hi_min = 60
         cfg.max_depth = min(cfg.max_depth, 3)
+    medium_windows = (not long_windows) and rng.random() < 0.1
+    if medium_windows:
+        # windows of 9-24 samples on logs of up to three window lengths, quantised signals (plateaus inside one window)
+        cfg.max_bound = rng.choice([9, 12, 16, 24])
+        cfg.hi_min = 9
+        cfg.max_depth = min(cfg.max_depth, 3)
     ast = sg.gen_formula(rng, cfg)
     if rng.random() < 0.2:
         ast = sg.add_operator_twin(rng, ast, set(common.PAST_OPS))      # the same operands under another operator (log/pow, once/historically ...)
@@ -50,7 +56,9 @@ def gen(rng, tier):
     n = rng.choice([1, 2, 3, 4, 5, 6, 8, 10, 12, 14] + ([18, 24] if big else []))
     if long_windows:
         n = rng.randint(70, 200)
-    data = world.gen_trace(rng, vars_, n, p_bigint=0.06)
+    if medium_windows:
+        n = rng.randint(cfg.max_bound, 3 * cfg.max_bound)
+    data = world.gen_trace(rng, vars_, n, p_bigint=0.06, style=('plateau' if medium_windows and rng.random() < 0.6 else None))
     times, fired = world.faulty_clock(rng, n, kinds=[k for k in ('jitter_in', 'jitter_out', 'offset', 'float_stamps')
                                                       if rng.random() < 0.4])
     orders = []
